@@ -391,10 +391,19 @@ fn lockstep(ctx: &Context, before: &TransitionSystem, after: &TransitionSystem, 
 
 /// renaming variants for the anonymous-input pass: 0, 1 or 2 of the system's symbols (inputs and
 /// states) are renamed to `_input_<n>` / `_state_<n>`
-pub fn rename_variants(spec: &SysSpec) -> Vec<SysSpec> {
+pub fn rename_variants(spec: &SysSpec, full: bool) -> Vec<SysSpec> {
     let syms: Vec<String> = spec.inputs.iter().map(|(n, _)| n.clone()).chain(spec.states.iter().map(|s| s.name.clone())).collect();
     let mut out = vec![spec.clone()];
     let pre = ["_input_", "_state_"];
+    if !full {
+        // reduced set: each input becomes `_input_<n>`, each state `_state_<n>`, one at a time
+        for (i, a) in syms.iter().enumerate() {
+            let mut v = rename_spec(spec, a, &format!("{}{i}", if i < spec.inputs.len() { pre[0] } else { pre[1] }));
+            v.name = format!("{}-anon", spec.name);
+            out.push(v);
+        }
+        return out;
+    }
     for (i, a) in syms.iter().enumerate() {
         for p in pre {
             let mut v = rename_spec(spec, a, &format!("{p}{i}"));
@@ -418,7 +427,7 @@ pub fn rename_variants(spec: &SysSpec) -> Vec<SysSpec> {
 }
 
 pub fn meta(rep: &mut Report) {
-    rep.rule = "systems = S1 (full pools incl. div/rem) + S3(3) of skeletons K1..K7 (thorough: S1 + S3(4) + S2(32) + S3(5) of K1/K3/K4/K7), hand-built swap/delay/count2/delayin and an array-input system; each with and without names on every intermediate node. simplify_expressions runs on every system; replace_anonymous_inputs_with_zero runs on every renaming variant (0, 1 or 2 of the inputs/states renamed to _input_<n> / _state_<n>). Oracle: input/state lists (minus the anonymous inputs), no init/next dropped or added, root counts and output names, type of every changed function, equality of every changed function with the original under ALL valuations of states and inputs (removed inputs = 0), no removed or undeclared symbol in the result, surviving names label equivalent functions, lock-step reference simulation over all input sequences of length 3 (quick) / 4 (thorough) from all initial states. evaluations = transformation calls; distinct_nontrivial = distinct (system, naming, pass) cases in which at least one init/next/output/bad/constraint expression changed".into();
+    rep.rule = "systems = S1 (full pools incl. div/rem) + S3(3) of skeletons K1..K7 (thorough: S1 + S3(4) + S2(32) + S3(5) of K1/K3/K4/K7), hand-built swap/delay/count2/delayin and an array-input system; each with and without names on every intermediate node. simplify_expressions runs on every system; replace_anonymous_inputs_with_zero runs on every renaming variant (0, 1 or 2 of the inputs/states renamed to _input_<n> / _state_<n>, all prefix combinations; in the quick tier the S3 systems get the reduced set: unrenamed, and each single symbol renamed). Oracle: input/state lists (minus the anonymous inputs), no init/next dropped or added, root counts and output names, type of every changed function, equality of every changed function with the original under ALL valuations of states and inputs (removed inputs = 0), no removed or undeclared symbol in the result, surviving names label equivalent functions, lock-step reference simulation over all input sequences of length 3 (quick) / 4 (thorough) from all initial states. evaluations = transformation calls; distinct_nontrivial = distinct (system, naming, pass) cases in which at least one init/next/output/bad/constraint expression changed".into();
     rep.assumptions = vec![
         "an input is anonymous iff its name starts with `_input` or `_state` (the constants of btor2/parse.rs); the pass looks at sys.inputs only, a state with such a name stays".into(),
         "init expressions read earlier states only (no inputs), so anonymous inputs never occur in init".into(),
@@ -481,7 +490,9 @@ pub fn run(opts: &Opts, rep: &Report) {
         for named in [false, true] {
             cases.push(Case { spec: spec.clone(), named, pass: Pass::Simplify, steps });
         }
-        for (vi, v) in rename_variants(spec).into_iter().enumerate() {
+        // quick: the product sweep S3 gets the reduced renaming set, everything else the full one
+        let full = tier.is_thorough() || !spec.name.ends_with("-s3");
+        for (vi, v) in rename_variants(spec, full).into_iter().enumerate() {
             // names do not interact with the renaming: named nodes on the unrenamed system and on
             // the variants that anonymise one symbol
             cases.push(Case { spec: v.clone(), named: false, pass: Pass::Zero, steps });
